@@ -85,7 +85,11 @@ func GroupHook(name string, pre, post, ret []interface{}) {
 			return
 		}
 		c := map[string]interface{}{"scalar": slimbs(s)}
-		expectPoint(name, r, ref.ScalarMult(SVal(s), ref.B), true, c)
+		want := ref.ScalarMult(SVal(s), ref.B)
+		expectPoint(name, r, want, true, c)
+		if sampleOnce("ScalarmultBaseNiels") {
+			Rec.Sample(map[string]interface{}{"monitored_call": "ScalarmultBaseNiels", "scalar": SVal(s).Text(16), "model_result": ptStr(want), "phase": Phase})
+		}
 	case "DoubleScalarmultVartime":
 		p, s1, s2, r := ge(pre[1]), sc(pre[2]), sc(pre[3]), ge(post[0])
 		if p == nil || s1 == nil || s2 == nil || r == nil {
@@ -100,6 +104,9 @@ func GroupHook(name string, pre, post, ret []interface{}) {
 		c["s1"], c["s2"] = slimbs(s1), slimbs(s2)
 		c["P"] = ptStr(pa)
 		expectPoint(name, r, want, false, c)
+		if sampleOnce("DoubleScalarmultVartime") {
+			Rec.Sample(map[string]interface{}{"monitored_call": "DoubleScalarmultVartime", "P": ptStr(pa), "s1": SVal(s1).Text(16), "s2": SVal(s2).Text(16), "model_result": ptStr(want), "phase": Phase})
+		}
 	case "Add":
 		p, q, r := ge(pre[1]), ge(pre[2]), ge(post[0])
 		if p == nil || q == nil || r == nil {
@@ -320,6 +327,13 @@ func JudgeMSM(pts []GE, scs []SC, r *GE, origin string) bool {
 	}
 	ra, ok := Affine(r)
 	if ok && ref.Eq(ra, sum) {
+		if sampleOnce("msm/" + origin) {
+			k := len(hexScalars)
+			if k > 5 {
+				k = 5
+			}
+			Rec.Sample(map[string]interface{}{"monitored_call": "multiScalarmultVartime", "terms": len(pts), "non_zero_randomisers": nzr, "first_scalars": hexScalars[:k], "model_sum": ptStr(sum)})
+		}
 		return true
 	}
 	// classification used by the known-findings list (D4): exactly one
